@@ -73,7 +73,13 @@ func (f *fnTrans) call(ins ssa.Instruction, c *ssa.CallCommon, res *ssa.Call) {
 	if ct != nil && len(ct.ParamSpec) > 0 && callee != nil {
 		f.checkParamContracts(ins, name, ct, callee, c)
 	}
+	userCB := false
+	if callee == nil && !c.IsInvoke() {
+		_, userCB = f.w.FnValueTargets(c.Value)
+	}
+	f.userCallback = userCB
 	rts := f.applyCall(ins, name, ct, calleeSig, c.IsInvoke(), args, argT, closureBind, impls, f.callMods(c), !inPkg && ct == nil)
+	f.userCallback = false
 	if res != nil {
 		switch len(rts) {
 		case 0:
@@ -190,6 +196,17 @@ func (f *fnTrans) applyCall(ins ssa.Instruction, name string, ct *Contract, sig 
 			f.factOb(g, t)
 		}
 	}
+	// a caller-supplied callback may re-enter the API: what every API call preserves must hold now ...
+	if f.userCallback {
+		for k, cl := range f.w.CallbackInv {
+			env := &Env{w: f.w, names: map[string]TV{}, st: pre, old: pre, lets: map[string]SExpr{}}
+			if t, err := env.EvalBool(cl.Expr); err == nil {
+				o := f.oblige("callback", fmt.Sprintf("before calling a caller-supplied callback: %s", cl.Src), ins.Pos(), cl.Props, f.here(), t)
+				o.Name = fmt.Sprintf("%s/callback:%s#%d/inv%d", f.name, name, ord, k)
+				f.factOb(f.here(), t)
+			}
+		}
+	}
 	// havoc
 	preTop := f.heap("G$allocTop")
 	modsTop := allocUnknown
@@ -204,6 +221,10 @@ func (f *fnTrans) applyCall(ins ssa.Instruction, name string, ct *Contract, sig 
 		f.havocHeap("G$allocTop")
 		f.factHere(Ge(f.heap("G$allocTop"), preTop))
 	}
+	frameTop := preTop
+	if !modsTop {
+		frameTop = Term{} // the callee cannot allocate: its frame covers every reference
+	}
 	for _, cs := range cases {
 		if !cs.hasMod {
 			continue
@@ -217,8 +238,32 @@ func (f *fnTrans) applyCall(ins ssa.Instruction, name string, ct *Contract, sig 
 			if !ok {
 				before = Sym(h+"@0", f.w.heapSort[h])
 			}
-			f.fact(And(f.here(), cs.guard), f.frameFormula(h, fs.locs[h], before, f.heap(h), preTop))
+			f.fact(And(f.here(), cs.guard), f.frameFormula(h, fs.locs[h], before, f.heap(h), frameTop))
 		}
+	}
+	// ... and is assumed to hold after it
+	if f.userCallback {
+		for _, cl := range f.w.CallbackInv {
+			env := &Env{w: f.w, names: map[string]TV{}, st: f.cur, old: pre, lets: map[string]SExpr{}}
+			if t, err := env.EvalBool(cl.Expr); err == nil {
+				f.factHere(t)
+			}
+		}
+		inMods := map[string]bool{}
+		for _, h := range mods {
+			inMods[h] = true
+		}
+		for _, h := range f.w.CallbackProtect {
+			if !inMods[h] {
+				continue
+			}
+			before, ok := pre.h[h]
+			if !ok {
+				before = Sym(h+"@0", f.w.heapSort[h])
+			}
+			f.factHere(f.frameFormula(h, nil, before, f.heap(h), preTop))
+		}
+		f.noteAssumed("caller-supplied callbacks interact with ice only through its public read API (whose schema postconditions are assumed across the callback)")
 	}
 	// schema frames: callee promises not to touch protected heaps of pre-existing objects
 	for _, cs := range cases {
